@@ -5,6 +5,7 @@
 import Vgw.Driver.Range
 import Vgw.Driver.Gw
 import Vgw.Driver.Policy
+import Vgw.Driver.BucketName
 
 structure DriverState where
   gw : Vgw.Driver.Gw.DState := {}
@@ -15,6 +16,7 @@ def dispatch (d : DriverState) (line : String) : DriverState × String :=
   | "gw" :: rest =>
     let (g, out) := Vgw.Driver.Gw.handle d.gw rest
     ({ d with gw := g }, out.getD "bad-op")
+  | "bucketname" :: rest => (d, (Vgw.Driver.BucketName.handle rest).getD "bad-op")
   | "glob" :: rest => (d, (Vgw.Driver.Policy.globHandle rest).getD "bad-op")
   | "policy" :: rest => (d, (Vgw.Driver.Policy.handle rest).getD "bad-op")
   | _ => (d, "bad-op")
